@@ -3,6 +3,8 @@ package props
 import (
 	"math"
 
+	"github.com/DataDog/sketches-go/ddsketch/pb/sketchpb"
+
 	"verif/harness/internal/core"
 	"verif/harness/internal/gen"
 	"verif/harness/internal/mon"
@@ -220,8 +222,49 @@ func (h *storeHist) step() {
 		h.pool = append([]*mon.MonStore{}, keep...)
 	}
 	r, s := h.r, h.main
-	op := r.Pick(30, 18, 6, 10, 5, 4, 6, 6, 3, 2, 4, 3, 3)
+	op := r.Pick(30, 18, 6, 10, 5, 4, 6, 6, 3, 2, 4, 3, 3, 2)
 	switch op {
+	case 13:
+		// a protobuf store message written by hand: sparse entries and a contiguous run that may begin and end with
+		// zeros (the library's own ToProto never pads)
+		h.opKinds["Proto"] = true
+		pb := &sketchpb.Store{}
+		want := map[int]float64{}
+		if r.P(0.6) {
+			pb.BinCounts = map[int32]float64{}
+			for i := 0; i < r.Range(1, 6); i++ {
+				idx := h.drawIndex(s)
+				w := h.budget.Weight(r, 8, 1)
+				if r.P(0.1) {
+					w = 0
+				}
+				pb.BinCounts[int32(idx)] += w
+			}
+			for k, w := range pb.BinCounts {
+				if w != 0 {
+					want[int(k)] += w
+				}
+			}
+		}
+		if r.P(0.8) {
+			first := h.drawIndex(s)
+			n := r.Range(1, 40)
+			for n > 1 && (!h.inWindow(s.Spec, first+n-1) || first+n-1 >= math.MaxInt32) {
+				n /= 2
+			}
+			pb.ContiguousBinIndexOffset = int32(first)
+			for i := 0; i < n; i++ {
+				w := h.budget.Weight(r, 8, 1)
+				if i < 2 && r.Bool() || i >= n-2 && r.Bool() || r.P(0.1) {
+					w = 0
+				}
+				pb.ContiguousBinCounts = append(pb.ContiguousBinCounts, w)
+				if w != 0 {
+					want[first+i] += w
+				}
+			}
+		}
+		s.MergeHandProto(pb, want)
 	case 12:
 		// a block written by hand from the format documentation (the library's own encoders only ever write
 		// ascending indexes and stride 1): signed deltas, negative or zero strides, repeated indexes
